@@ -6,7 +6,8 @@ PID = 'C19'
 PROPS_MODULE = 'SympdeModel.Props.C19'
 RULE = ('random programs over differential forms (forms of every degree 0..n, n in 1..6, sums, constant '
         'multiples by integers/rationals/Constants from a small shared pool and their powers (c*c = c**2, c**3, '
-        'c**-1, sqrt(c), (2*c)**2, (c*e)**3, b**c), d, delta, hodge, wedge, nesting depth <= 5/7) evaluated '
+        'c**-1, sqrt(c), (2*c)**2, (c*e)**3, b**c; in every fourth program also floating-point numbers 2.5, 0.5, '
+        '-1.25, 0.5*c, all dyadic and sent to the model as the exact rational), d, delta, hodge, wedge, nesting depth <= 5/7) evaluated '
         'bottom-up with the real API; every operator application (op, canonical argument tree) is one case; '
         'non-trivial = the argument is a sum, a product or hits a short-cut (i.e. not merely wrapped in a node); '
         'distinct by serialised (op, argument)')
@@ -349,6 +350,22 @@ def has_float(p):
     return isinstance(p, (tuple, list)) and (p[:1] in (('flt',), ('fmul',)) or any(has_float(a) for a in p))
 
 
+# programs with floating-point coefficients (fixed corpus of the oracle and of the correspondence run)
+_U13, _W13 = ('form', 'u1_3', 1), ('form', 'w1_3', 1)
+FLOAT_CORPUS = [
+    (3, ('cmul', ('flt', '2.5'), _U13)),
+    (3, ('d', ('cmul', ('flt', '2.5'), _U13))),
+    (3, ('delta', ('cmul', ('flt', '0.5'), ('form', 'w2_3', 2)))),
+    (2, ('hodge', ('cmul', ('flt', '-1.25'), ('form', 'u1_2', 1)))),
+    (3, ('cmul', ('flt', '-1.25'), ('add', [_U13, _W13]))),
+    (3, ('cmul', ('fmul', '0.5', 'c'), _U13)),
+    (3, ('d', ('cmul', ('flt', '2.5'), ('d', _U13)))),
+    (3, ('add', [('cmul', ('flt', '2.5'), ('d', _U13)), ('cmul', ('flt', '0.5'), ('form', 'w2_3', 2))])),
+    (4, ('wedge', ('cmul', ('flt', '2.5'), ('form', 'u1_4', 1)), ('cmul', ('fmul', '0.5', 'c'), ('form', 'w2_4', 2)))),
+    (3, ('hodge', ('d', ('cmul', ('flt', '0.75'), ('hodge', ('form', 'u3_3', 3)))))),
+]
+
+
 def correspondence(ctx):
     c = Corr()
     ser = Ser()
@@ -357,12 +374,16 @@ def correspondence(ctx):
     maxdepth = 7 if ctx.thorough else 5
     cases = []     # (kind, line, payload)
     seen = set()
-    for i in range(nprog):
-        n = ctx.rng.randint(1, 6)
-        # every sixth program has floating-point coefficients (dyadic, so a Float is exactly the rational
+    # fixed corpus first: every operator twice on each program with floating-point coefficients
+    corpus = [(n, (op, (op, p))) for n, p in FLOAT_CORPUS for op in ('d', 'delta', 'hodge')]
+    for i in range(-len(corpus), nprog):
+        if i < 0:
+            n, p = corpus[i]
+        n = ctx.rng.randint(1, 6) if i >= 0 else n
+        # every fourth program has floating-point coefficients (dyadic, so a Float is exactly the rational
         # the model gets for it; the real output is compared after the same replacement)
-        g = Gen(ctx.rng, n, maxdepth, floats=(i % 6 == 5))
-        p = g.prog()
+        g = Gen(ctx.rng, n, maxdepth, floats=(i % 4 == 3))
+        p = g.prog() if i >= 0 else p
         r = Runner(n)
         try:
             v = r.run(p)
@@ -795,19 +816,7 @@ def oracle(ctx, factor, seeds):
         ]
     # floating-point coefficients (python floats, sympy Floats, a Float times a Constant): constants like any
     # other.  All of them dyadic, so the laws hold exactly (no rounding anywhere).
-    u13_, w13_ = ('form', 'u1_3', 1), ('form', 'w1_3', 1)
-    fixed += [
-        (3, ('cmul', ('flt', '2.5'), u13_)),
-        (3, ('d', ('cmul', ('flt', '2.5'), u13_))),
-        (3, ('delta', ('cmul', ('flt', '0.5'), ('form', 'w2_3', 2)))),
-        (2, ('hodge', ('cmul', ('flt', '-1.25'), ('form', 'u1_2', 1)))),
-        (3, ('cmul', ('flt', '-1.25'), ('add', [u13_, w13_]))),
-        (3, ('cmul', ('fmul', '0.5', 'c'), u13_)),
-        (3, ('d', ('cmul', ('flt', '2.5'), ('d', u13_)))),
-        (3, ('add', [('cmul', ('flt', '2.5'), ('d', u13_)), ('cmul', ('flt', '0.5'), ('form', 'w2_3', 2))])),
-        (4, ('wedge', ('cmul', ('flt', '2.5'), ('form', 'u1_4', 1)), ('cmul', ('fmul', '0.5', 'c'), ('form', 'w2_4', 2)))),
-        (3, ('hodge', ('d', ('cmul', ('flt', '0.75'), ('hodge', ('form', 'u3_3', 3)))))),
-    ]
+    fixed += FLOAT_CORPUS
     progs = list(fixed)
     concrete_selftest(m)
     # witness of the finding C19-coef-pow (fixed by 5022685: a power of a Constant was not recognised as
